@@ -95,6 +95,9 @@ func NewPrivateKeyFromXML(xmlInput string, demo bool) (*PrivateKey, error) {
 	if err != nil {
 		return nil, err
 	}
+	if privk.P == nil || privk.Q == nil || privk.PPrime == nil || privk.QPrime == nil {
+		return nil, errors.New("private key is missing one of the mandatory elements p, q, pPrime, qPrime")
+	}
 
 	if !demo {
 		// Do some sanity checks on the key data
@@ -276,6 +279,9 @@ func NewPublicKeyFromBytes(bts []byte) (*PublicKey, error) {
 	if err != nil {
 		return nil, err
 	}
+	if pubk.N == nil || pubk.Z == nil || pubk.S == nil {
+		return nil, errors.New("public key is missing one of the mandatory elements n, Z, S")
+	}
 	keylength := pubk.N.BitLen()
 	if sysparam, ok := DefaultSystemParameters[keylength]; ok {
 		pubk.Params = sysparam
@@ -309,6 +315,9 @@ func NewPublicKeyFromFile(filename string) (*PublicKey, error) {
 	err = xml.Unmarshal(b, pubk)
 	if err != nil {
 		return nil, err
+	}
+	if pubk.N == nil || pubk.Z == nil || pubk.S == nil {
+		return nil, errors.New("public key is missing one of the mandatory elements n, Z, S")
 	}
 	pubk.Params = DefaultSystemParameters[pubk.N.BitLen()]
 	if err = pubk.parseRevocationKey(); err != nil {
